@@ -263,6 +263,51 @@ unsafe impl star_frame::unsize::wrapper::UnsizedTypeDataAccess for RawAccess {
     }
 }
 
+/// a data access whose `data_mut` works (exclusive views can be opened) and whose realloc refuses: the exclusive walk
+/// of `parse` only reads through mutable accessors
+struct RawAccessMut {
+    ptr: *mut u8,
+    len: usize,
+}
+struct NoGuard;
+impl star_frame::unsize::wrapper::DataMutDrop for NoGuard {}
+unsafe impl star_frame::unsize::wrapper::UnsizedTypeDataAccess for RawAccessMut {
+    unsafe fn unsized_data_realloc(_t: &Self, _d: &mut *mut [u8], _n: usize) -> Result<()> {
+        Err(star_frame::errors::Error::from(ProgramError::InvalidRealloc))
+    }
+    fn data_ref(this: &Self) -> Result<impl std::ops::Deref<Target = [u8]>> {
+        Ok(RawRef(this.ptr, this.len))
+    }
+    fn data_mut(this: &Self) -> Result<star_frame::unsize::wrapper::UnsizedDataMut<'_>> {
+        let ptr: *mut [u8] = std::ptr::slice_from_raw_parts_mut(this.ptr, this.len);
+        let start = this.ptr as usize;
+        Ok((ptr, start..start + this.len, Box::new(NoGuard)))
+    }
+}
+
+/// a copy of `bytes` that ends exactly at an inaccessible page and starts right after canaries: (mapping, its accessible
+/// length, the copy)
+fn place(bytes: &[u8]) -> (*mut u8, usize, *mut u8) {
+    let n = bytes.len();
+    let pages = (n + PAGE - 1) / PAGE + 1;
+    let map_len = (pages + 1) * PAGE;
+    unsafe {
+        let map = libc::mmap(std::ptr::null_mut(), map_len, libc::PROT_READ | libc::PROT_WRITE,
+            libc::MAP_PRIVATE | libc::MAP_ANONYMOUS, -1, 0) as *mut u8;
+        assert!(map as isize != -1);
+        std::ptr::write_bytes(map, 0xC5, map_len);
+        let guard = map.add(map_len - PAGE);
+        let data = guard.sub(n);
+        std::ptr::copy_nonoverlapping(bytes.as_ptr(), data, n);
+        assert_eq!(libc::mprotect(guard.cast(), PAGE, libc::PROT_NONE), 0);
+        (map, map_len - PAGE, data)
+    }
+}
+
+/// observation: owned conversion | shared view (`0 extent scan..` / `1 code` / `2`) | -773 | free-form output of the
+/// exclusive walk (pointer level, -772, wrapper level) | the fixed trailer
+/// `-774 status (0 ok, 1 error, 2 panic) extent-or-code drop (0 ok, 2 panic, 9 not opened) bytes-unchanged canaries-intact
+///  OUTSIDE-after-the-shared-view INVALID-after-the-shared-view OUTSIDE INVALID`
 fn parse<T>(c: &mut Cur) -> Vec<i128>
 where
     T: Node + ?Sized,
@@ -272,20 +317,7 @@ where
     let n = c.next().unwrap() as usize;
     let bytes: Vec<u8> = c.take(n).unwrap().iter().map(|x| *x as u8).collect();
     // the input ends exactly at an inaccessible page and starts right after canaries
-    let pages = (n + PAGE - 1) / PAGE + 1;
-    let map_len = (pages + 1) * PAGE;
-    let (map, data) = unsafe {
-        let map = libc::mmap(std::ptr::null_mut(), map_len, libc::PROT_READ | libc::PROT_WRITE,
-            libc::MAP_PRIVATE | libc::MAP_ANONYMOUS, -1, 0) as *mut u8;
-        assert!(map as isize != -1);
-        std::ptr::write_bytes(map, 0xC5, map_len);
-        let guard = map.add(map_len - PAGE);
-        let data = guard.sub(n);
-        std::ptr::copy_nonoverlapping(bytes.as_ptr(), data, n);
-        assert_eq!(libc::mprotect(guard.cast(), PAGE, libc::PROT_NONE), 0);
-        (map, data)
-    };
-    let _ = map;
+    let (_map, _, data) = place(&bytes);
     let slice: &[u8] = unsafe { std::slice::from_raw_parts(data, n) };
     let mut out = vec![];
     // owned conversion
@@ -313,6 +345,46 @@ where
         Ok(Err(e)) => tag_err(e, &mut out),
         Err(()) => out.push(2),
     }
+    let shared_counts = (vh::nodes::OUTSIDE.with(|c| c.get()), vh::nodes::INVALID.with(|c| c.get()));
+    // exclusive view over a COPY of the input placed the same way + every mutable accessor of the shape, first below the
+    // top pointer (`&mut` methods), then through the child wrappers; each accessor runs under catch_unwind on its own
+    let (map2, lim2, data2) = place(&bytes);
+    let input2 = (data2 as usize, n);
+    let acc2 = RawAccessMut { ptr: data2, len: n };
+    out.push(-773);
+    let mut xs: Vec<i128> = vec![];
+    let opened = guarded(|| ExclusiveWrapper::<T::Ptr, _>::new(&acc2) as Result<ExclusiveWrapperTop<'_, T, RawAccessMut>>);
+    let (status, info, dropped) = match opened {
+        Ok(Ok(mut w)) => {
+            let ext = guarded(|| {
+                vh::nodes::inside::<T>(&*w, input2);
+                T::data_len(&*w) as i128
+            });
+            let walked = guarded(|| {
+                T::scan_mut(&mut *w, input2, &mut xs);
+                xs.push(-772);
+                T::scan_excl(&mut w, input2, &mut xs);
+            });
+            // the end of the exclusive borrow: the drop-time pointer check
+            let dropped = match guarded(move || drop(w)) {
+                Ok(()) => 0,
+                Err(()) => 2,
+            };
+            match (ext, walked) {
+                (Ok(e), Ok(())) => (0, e, dropped),
+                _ => (2, -1, dropped),
+            }
+        }
+        Ok(Err(e)) => (1, err_code(e) as i128, 9),
+        Err(()) => (2, -1, 9),
+    };
+    out.extend(xs);
+    let (unchanged, canaries) = unsafe {
+        let front = std::slice::from_raw_parts(map2, data2 as usize - map2 as usize);
+        debug_assert_eq!(front.len() + n, lim2);
+        (std::slice::from_raw_parts(data2, n) == &bytes[..], front.iter().all(|b| *b == 0xC5))
+    };
+    out.extend([-774, status, info, dropped, unchanged as i128, canaries as i128, shared_counts.0, shared_counts.1]);
     out.push(vh::nodes::OUTSIDE.with(|c| c.get()));
     out.push(vh::nodes::INVALID.with(|c| c.get()));
     out
